@@ -68,6 +68,18 @@ CLAIMED = {
         note='Trusted: Coq kernel, translator (ISO tables, latin1 match arms), extraction, harness, hooks verif::read_eci/write_eci; '
              'Spec/Eci.v formulas; Rust String modelled as scalar list. Three genuine defects were repaired by fix: commits (known_findings.json). No axioms.',
         technique='Coq proof: linear arithmetic with div/mod for all ECI numbers; kernel sweep over 256 bytes lifted by induction; UTF-8 codec proved sound and complete; exhaustive correspondence'),
+    'C19': dict(
+        text='Theorem C19_bound (Coq, axiom-free): for every input, symbol list, mode set, start mode and every behaviour of the unspecified '
+             'unstable sort (the sort is a parameter of the model with NO hypothesis), whenever optimize() returns it has executed at most '
+             '216*(n+1)+5 Plan::step calls in at most n+1 iterations and kept at most 36 plans alive after pruning. Proof: pigeonhole on the '
+             '(start mode, current mode) keys after de-duplication, at most 5 spawned plans per live plan, induction over the main loop; nothing '
+             'about costs or the Plan implementations is used, so adversarial inputs are covered. Tie: the model counters are compared EXACTLY '
+             'with the implementation\'s hook counters (steps, live plans, iterations) on every generated input, with the implementation\'s sort '
+             'order replayed as an oracle input, and both against the proved bound.',
+        design_ref='DESIGN.md 6/C19',
+        note='Trusted: Coq kernel, extraction, harness, hooks (steps/live/iterations counters and sort trace in shortest_path.rs/generic.rs). '
+             'Per-step work (look-ahead scans) is not counted, as in the property statement. No axioms.',
+        technique='Coq proof: counting invariant by induction over the planner loop, sort abstracted as an arbitrary function; exact counter correspondence via hooks'),
 }
 
 PENDING_REASON = 'check not built yet in this round (work proceeds in the order of DESIGN.md section 11); not claimed until its quick command exists'
